@@ -283,9 +283,94 @@ def check(pm: ProgramModel, ctx: Ctx) -> None:
                     ctx.check(not badn, "C02-USABLE", f"{reader}:{label}:get_features", where,
                               "get_features of every constraint returns exactly the names written",
                               bad=f"document {label}: " + "; ".join(badn[:2]))
+        after_failure(pm, ctx, docs)
     sites(pm, ctx, executed)
     mechanism(pm, ctx, mb)
     ctx.floor("C02", "obligations", len(ctx.obligations), 30)
+
+
+def _broken_variant(reader: str, content: Any) -> Any:
+    """The document with something at its end that the reader cannot represent: reading fails after most of the document
+    was processed (an unknown constraint type / rule tag / term, a relational constraint inside an AFM feature block)."""
+    import json as _json
+    text = content.decode("utf8") if isinstance(content, (bytes, bytearray)) else content
+    if reader in ("JSONReader", "GlencoeReader"):
+        try:
+            doc = _json.loads(text)
+        except (ValueError, TypeError):
+            return None
+        if reader == "JSONReader":
+            doc.setdefault("constraints", []).append({"name": "bogus", "expr": "x", "ast": {"type": "NoSuchOperator", "operands": []}})
+        else:
+            cons = doc.setdefault("constraints", {})
+            if isinstance(cons, dict):
+                cons["bogus"] = {"type": "NoSuchTerm", "operands": []}
+        return _json.dumps(doc)
+    if reader == "FeatureIDEReader":
+        if "</constraints>" in text:
+            out = text.replace("</constraints>", "<rule><nosuchtag><var>x</var></nosuchtag></rule></constraints>", 1)
+        else:
+            out = text.replace("</struct>", "</struct><constraints><rule><nosuchtag><var>x</var></nosuchtag></rule></constraints>", 1)
+        return out.encode("utf8") if isinstance(content, (bytes, bytearray)) else out
+    if reader == "AFMReader":
+        import re as _re
+        m = _re.search(r"^([A-Z][A-Za-z0-9]*)\s*:", text, _re.M)
+        if not m or "%Constraints" not in text:
+            return None
+        return text.rstrip("\n") + f"\n{m.group(1)} {{ {m.group(1)}.cost > 3; }}\n"
+    if reader == "UVLReader":
+        return text + "\n\t((broken\n"
+    return None
+
+
+def after_failure(pm: ProgramModel, ctx: Ctx, docs: dict[str, list[tuple[str, Any, Any]]]) -> None:
+    """One reader object whose transform() failed on a document it cannot represent, the file then replaced by a good
+    document and the same object asked again: the model must be the one a new reader object builds (nothing of the failed
+    attempt - a scope, a partial table - may be left in the object). A reader that declines a second call is reported as
+    information."""
+    from ..absint import AbsMutation, reset_global_state
+    from ..codec import new_interp
+    from ..roundtrip import describe, diff
+    for reader, items in docs.items():
+        rd = pm.cls(reader)
+        where = loc(rd.unit.path, rd.node)
+        tr = pm.method(rd, "transform")
+        label, content, _ref = items[0]
+        bad = _broken_variant(reader, content)
+        key = f"{reader}:same-object-after-a-failed-reading"
+        if bad is None or tr is None:
+            continue
+        reset_global_state()
+        vfs = VFS()
+        vfs.put(PATH, bad)
+        it = new_interp(pm, vfs)
+        both(it, vfs)
+        try:
+            r1 = it.eval_call_class(rd, [PATH])
+        except (AbsRaise, AbsMutation):
+            continue
+        try:
+            it.call(tr, [r1])
+            ctx.info("C02-REUSE", key, where, f"{reader} accepts the document made to fail ({label} + an unknown construct)")
+            continue
+        except (AbsRaise, AbsMutation):
+            pass
+        vfs.put(PATH, content)
+        fresh = run_reader(pm, reader, vfs, setup=both)
+        if fresh["model"] is None:
+            continue
+        try:
+            again = it.call(tr, [r1])
+        except (AbsRaise, AbsMutation) as exc:
+            ctx.info("C02-REUSE", key, where, f"{reader}: a reader object asked again after a failed reading declines: {exc.what}")
+            continue
+        dd = diff(describe(fresh["model"]), describe(again), ctc_names=True)
+        wf = wellformed(again)
+        ctx.check(not dd and not wf, "C02-REUSE", key, where,
+                  "a reader object asked again after a failed reading builds the model a new reader object builds",
+                  bad=f"{reader}: after a reading that failed half-way the same object, asked to read a good document, builds "
+                      f"another model than a new reader does: {(dd or wf or [('', '')])[0][1]}")
+    reset_global_state()
 
 
 def _feature_names(n: Any) -> list[str]:
